@@ -163,8 +163,8 @@ class Script:
         return self.state.setdefault(i, {"opt": ["SMART", "NASM", "NASM"], "fit": 0, "off": 0, "ext": True, "cap": 0})
 
     def create(self, i, kind, cap):
-        self.state[i] = {"opt": ["SMART", "NASM", "NASM"], "fit": 0, "off": 0, "ext": kind == "ext", "cap": cap}
-        self.lines.append("C %d %s %d" % (i, kind, cap) if kind == "ext" else "C %d int" % i)
+        self.state[i] = {"opt": ["SMART", "NASM", "NASM"], "fit": 0, "off": 0, "ext": kind in ("ext", "exta"), "cap": cap}
+        self.lines.append("C %d %s %d" % (i, kind, cap) if kind in ("ext", "exta") else "C %d int" % i)
         self.meta.append({})
 
     def mirror(self, i):
@@ -262,6 +262,10 @@ class Script:
     def binfile(self, i, path, expectfail=False):
         self.lines.append("B %d %s" % (i, hx(path)))
         self.meta.append({"expectfail": True} if expectfail else {})
+
+    def dropuid(self):
+        self.lines.append("J")
+        self.meta.append({})
 
     def fdlimit(self, n):
         self.lines.append("L %d" % n)
@@ -641,6 +645,8 @@ def run(prop, tier, replay=None):
             scripts += c13_boundary(L, rnd, tier)
         if prop == "C14":
             scripts += [x for x in c13_boundary(L, rnd, tier) if x.sid.startswith(("C13-g", "C13-q"))]
+        if prop == "C15":
+            scripts += [x for x in c13_boundary(L, rnd, tier) if x.sid.startswith("C13-qo")]
         if prop == "C07":
             scripts += c07_boundary(L, rnd, tier)
         if prop in ("C15", "C13"):
@@ -866,6 +872,16 @@ def c08_boundary(L, rnd, tier):
                 sc.asm(1, body[:half], [L.text[x] for x in body[:half]], count=(16 if mode == "count" else None))
                 sc.asm(1, body[half:], [L.text[x] for x in body[half:]], count=(16 if mode == "count" else None))
                 out.append(sc)
+    # more than a hundred growth steps (the capacity passes through every alignment relative to the page size): judged by the mechanism
+    # model alone (the caller-buffer mirror is smaller)
+    k13 = (L.bylen.get(13) or L.bylen[11])[0]
+    for total in ((684000, 690000, 1200000) if tier == "thorough" else (684000,)):
+        sc = Script("C08-h%d" % n); n += 1
+        sc.create(1, "int", 0)
+        body = build(total)
+        sc.asm(1, body, [L.text[x] for x in body])
+        sc.asm(1, [k13, k13, small[0]], [L.text[k13], L.text[k13], L.text[small[0]]])
+        out.append(sc)
     # a call that STARTS inside the last 20 bytes of the mapped buffer (the previous call ended there, or asm_set_offset put it there)
     for mult in mults:
         for P in range(mult * 6000 - 3, mult * 6000 + 24, 1 if tier == "thorough" else 2):
@@ -993,7 +1009,90 @@ def c13_boundary(L, rnd, tier):
                     sc.offset(1, start)
                 sc.asm(1, keys, [L.text[x] for x in keys], count=c)
                 out.append(sc)
+                sc = Script("C13-qf%d" % n); n += 1       # the same program fitted to that chunk size (set while the buffer is still 6020 bytes)
+                sc.create(1, "int", 0)
+                sc.chunk(1, c)
+                if start:
+                    sc.offset(1, start)
+                sc.asm(1, keys, [L.text[x] for x in keys])
+                out.append(sc)
+        # ... and a chunk end a few bytes beyond the capacity, reached through asm_set_offset
+        for c, off in ((6020, 6000), (6025, 6010), (8000, 7995), (12020, 12010)):
+            k10 = (L.bylen.get(10) or L.bylen[7])[0]
+            for hist in (False, True):
+                sc = Script("C13-qo%d" % n); n += 1
+                sc.create(1, "int", 0)
+                if hist:
+                    body = [k11] * (13000 // 11)
+                    sc.asm(1, body, [L.text[x] for x in body])     # the buffer has grown before
+                sc.chunk(1, c)
+                sc.offset(1, off)
+                sc.asm(1, [k10, k11, k10], [L.text[k10], L.text[k11], L.text[k10]])
+                out.append(sc)
     return out
+
+
+def c09_settings(L, rnd, tier):
+    """C09 quantifies over "any option, chunk and mode setting": chunk sizes at every integer boundary (0, 1, 2, around 2^31, 2^32 and its
+    multiples, 2^62, 2^63, 2^64-1), set through asm_set_chunk_size and/or passed to a counting call, followed by further calls of every
+    kind (a stale or truncated saved size shows as a fault or a wrong result in a LATER call), on both kinds of buffer"""
+    out, n = [], 0
+    bad = L.bad[0]
+    k3 = L.bylen[3][0]; k7 = (L.bylen.get(7) or L.bylen[3])[0]; k1 = L.bylen[1][0]
+    sizes = [0, 1, 2, 3, 16, 6021, (1 << 31) - 1, 1 << 31, (1 << 32) - 1, 1 << 32, (1 << 32) + 9, 3 << 32, 1 << 62, 1 << 63, (1 << 63) + 8, (1 << 64) - 1]
+    counts = [0, 1, 2, 8, (1 << 31) - 1]
+    if tier == "quick":
+        counts = [1, 8, (1 << 31) - 1]
+    for c in sizes:
+        for kind in ("ext", "int"):
+            for c2 in counts:
+                for hist in ("ok", "fail", "null", "twice"):
+                    if tier == "quick" and (n * 7 + c2) % 3 and c < (1 << 31) - 1:
+                        n += 1
+                        continue
+                    sc = Script("C09-k%d" % n); n += 1
+                    sc.create(1, kind, 600 if kind == "ext" else 0)
+                    sc.chunk(1, c)
+                    sc.asm(1, [k7, k3], [L.text[k7], L.text[k3]])
+                    if hist in ("ok", "twice"):
+                        sc.asm(1, [k7, k3], [L.text[k7], L.text[k3]], count=c2)
+                    if hist == "fail":
+                        sc.asm(1, [k7, bad], [L.text[k7], L.text[bad]], count=c2)
+                    if hist == "null":
+                        sc.lines.append("N 1 %d z t%d %s" % (c2, len(sc.lines), hx(L.text[k7]))); sc.meta.append({"prog": [k7]}); sc.state[1]["off"] = None
+                    if hist == "twice":
+                        sc.asm(1, [k3, k1, k3], [L.text[k3], L.text[k1], L.text[k3]], count=c2)
+                    sc.offset(1, 14)
+                    sc.asm(1, [k7, k1, k7], [L.text[k7], L.text[k1], L.text[k7]])
+                    sc.asm(1, [k3], [L.text[k3]], count=8)
+                    sc.asm(1, [k3, bad], [L.text[k3], L.text[bad]])
+                    out.append(sc)
+    return out
+
+
+def settings_stage(tier, rnd, replay=None):
+    """run c09_settings (or one replayed script) and have spec/ApiTrace.tla judge the events; returns (findings, judged) with findings =
+    [(property, reason, event, script, events)] for everything that is not model drift"""
+    A.build("plain")
+    A.build_harness("linerun")
+    L = Lines()
+    if replay:
+        sc = Script(replay["sid"]); sc.lines, sc.meta = replay["script"], replay["meta"]
+        scripts = [sc]
+    else:
+        scripts = c09_settings(L, rnd, tier)
+    results = execute(scripts, L)
+    bad, judged = validate(results, L)
+    bysid = {sc.sid: (sc, evs) for sc, evs in results}
+    out = []
+    for sid, reason, evname in bad:
+        if reason.startswith("driver:"):
+            raise A.Infra("driver error %s in %s" % (reason, sid))
+        if reason.startswith("mech:") or sid not in bysid:
+            continue
+        p, r = reason.split(":", 1)
+        out.append((p, r, evname, bysid[sid][0], bysid[sid][1]))
+    return out, judged, len(results)
 
 
 def c15_directed(L, rnd, tier):
@@ -1004,6 +1103,23 @@ def c15_directed(L, rnd, tier):
     bad = L.bad[0]
     k3 = L.bylen[3][0]; k7 = (L.bylen.get(7) or L.bylen[3])[0]; k1 = L.bylen[1][0]
     cs = (8, 16, 5) if tier == "quick" else (4, 5, 8, 9, 16, 32)
+    # chunk sizes that are multiples of 2^32: nothing is ever padded, whatever counting calls happened in between
+    for c in (1 << 32, 3 * (1 << 32), 1 << 63 if False else (1 << 62)):
+        for hist in ("count-ok", "count-fail", "count-null", "off-on"):
+            sc = Script("C15-w%d" % n); n += 1
+            sc.create(1, "ext", 600)
+            sc.chunk(1, c)
+            if hist == "count-ok":
+                sc.asm(1, [k7, k3], [L.text[k7], L.text[k3]], count=8)
+            elif hist == "count-fail":
+                sc.asm(1, [k7, bad], [L.text[k7], L.text[bad]], count=8)
+            elif hist == "count-null":
+                sc.lines.append("N 1 8 z t%d %s" % (len(sc.lines), hx(L.text[k7]))); sc.meta.append({"prog": [k7]}); sc.state[1]["off"] = None
+            else:
+                sc.chunk(1, 0); sc.chunk(1, c)
+            sc.offset(1, 14)
+            sc.asm(1, [k7, k1, k7], [L.text[k7], L.text[k1], L.text[k7]], twin=True)
+            out.append(sc)
     for c in cs:
         for hist in ("off-on", "off1-call-on", "other-size", "count-ok", "count-fail", "count-null", "count-same", "debug", "opt-roundtrip", "set-again", "fail-then"):
             for ln_key in (k3, k7):
@@ -1079,6 +1195,23 @@ def c07_boundary(L, rnd, tier):
                     k1 = L.bylen[ln][n % len(L.bylen[ln])]
                     sc.asm(1, [k1], [L.text[k1]])
                     out.append(sc)
+    # caller buffers that are private page-aligned mappings of their own (as in the README), filled until the calls fail: sizes below,
+    # at and above one page; the failing calls must leave the mapping alone
+    k11 = min(L.bylen[11], key=lambda x: len(L.text[x])) if L.bylen.get(11) else L.bylen[3][0]
+    for cap in (300, 4096, 4097, 8192, 6020):
+        for mode in ("plain", "fit", "count"):
+            sc = Script("C07-a%d" % n); n += 1
+            sc.create(1, "exta", cap)
+            if mode == "fit":
+                sc.chunk(1, 16)
+            per = len(L.codes[k11][0])
+            body = [k11] * (cap // per + 3)
+            sc.asm(1, body, [L.text[x] for x in body], count=(16 if mode == "count" else None))
+            body2 = [k11] * max(1, (cap - 25) // per)
+            sc.asm(1, body2, [L.text[x] for x in body2], count=(16 if mode == "count" else None))
+            for _ in range(3):
+                sc.asm(1, [k11, k11], [L.text[k11], L.text[k11]], count=(16 if mode == "count" else None))
+            out.append(sc)
     # every small caller buffer (real sizes, not the scaled ones of the model): 0 .. 45 bytes, three modes, two calls
     for cap in range(0, 46):
         for ln in (1, 3, 13):
@@ -1200,6 +1333,17 @@ def c19_scripts(L, rnd, tier):
         sc.asm_file(1, [], longbad, count=cnt, expectfail=True)
         sc.asm_file(1, [k], longok, count=cnt, twin=False)
         sc.asm(1, [k], [L.text[k]])
+        out.append(sc)
+    # a readable file that belongs to another user (the script's process drops to an unprivileged uid first)
+    os.chmod(d, 0o755)
+    pub = os.path.join(d, "pub.asm")      # (every directory above it is world-searchable: the build tree holds nothing private)
+    open(pub, "w").write(L.text[L.bylen[3][0]] + "\n" + L.text[L.bylen[1][0]] + "\n")
+    os.chmod(pub, 0o644)
+    for cnt in (None, 8):
+        sc = Script("C19-uid%d" % n); n += 1
+        sc.create(1, "ext", 200)
+        sc.dropuid()
+        sc.asm_file(1, [L.bylen[3][0], L.bylen[1][0]], pub, count=cnt, twin=False)
         out.append(sc)
     # failing file calls must not use up descriptors: with a limit of 40, sixty failing calls of each kind, then a good file
     for badpath in (d, os.path.join(d, "does-not-exist.asm"), "/proc", longbad):
